@@ -33,6 +33,20 @@ class StubCropper:
         return page_layout
 
 
+class StubLayoutParser:
+    """stands for the chain of layout stages (spec/LayoutChain.tla): the lines are detected anew"""
+    def process_page(self, img, page_layout):
+        from pero_ocr.core.layout import TextLine
+        for region in page_layout.regions:
+            fresh = []
+            for ln in region.lines:
+                nl = TextLine(id=ln.id, baseline=ln.baseline.copy(), polygon=ln.polygon.copy(), heights=np.array(ln.heights))
+                nl._verif_pass = ln._verif_pass
+                fresh.append(nl)
+            region.lines = fresh
+        return page_layout
+
+
 class StubEngine:
     characters = ["o", "c", "r"]
 
@@ -60,12 +74,12 @@ class StubDecoder:
 def build_parser(cfg):
     from pero_ocr.document_ocr.page_parser import PageParser, PageOCR, PageDecoder
     pp = PageParser.__new__(PageParser)
-    pp.run_layout_parser = False
+    pp.run_layout_parser = cfg["layout"]
     pp.run_line_cropper = cfg["crop"]
     pp.run_ocr = cfg["ocr"]
     pp.run_decoder = cfg["dec"]
     pp.filter_confident_lines_threshold = THRESHOLD if cfg["filter"] else -1
-    pp.layout_parsers = []
+    pp.layout_parsers = [StubLayoutParser()]
     pp.line_cropper = StubCropper()
     ocr = PageOCR.__new__(PageOCR)
     ocr.ocr_engine = StubEngine()
@@ -114,7 +128,7 @@ def execute(case):
 
 
 def cases():
-    cfgs = [dict(zip(("crop", "ocr", "dec", "filter"), bits)) for bits in itertools.product((False, True), repeat=4)]
+    cfgs = [dict(zip(("layout", "crop", "ocr", "dec", "filter"), bits)) for bits in itertools.product((False, True), repeat=5)]
     ls = [dict(zip(("logits", "text", "conf", "pass", "loadedpass"), v)) for v in itertools.product(
         ("none", "loaded"), ("none", "loaded"), ("none", "loaded"), (False, True), (False, True))]
     for cfg in cfgs:
@@ -123,7 +137,7 @@ def cases():
 
 
 def run(ctx):
-    ctx.rule = ("every configuration (crop/ocr/decoder/filter on-off) x every input state of a %d-line page (logits, text, confidence "
+    ctx.rule = ("every configuration (layout/crop/ocr/decoder/filter on-off) x every input state of a %d-line page (logits, text, confidence "
                 "present or not, above/below the filter threshold); non-trivial = at least one stage ran and the page finished" % NLINES)
     ctx.exhaustive = True
     ctx.tlc("Pipeline", constants={"NLines": NLINES, "Legacy": False}, invariants=INVS, properties=["Terminates"], spec="Spec",
@@ -148,7 +162,7 @@ def run(ctx):
         tr = traces[idx]
         print("PIPELINE-MISMATCH stage=%d case=%s" % (prog, {k: tr[k] for k in ("cfg", "page", "outcome", "result")}))
         ctx.violations.append({"signature": "pipeline", "what": "run is not a behaviour of Pipeline.tla", "replay": None})
-    ctx.notes["explanation"] = ("TLC on Pipeline.tla (16384 initial states for 2 lines) + every initial state executed on the real "
+    ctx.notes["explanation"] = ("TLC on Pipeline.tla (32768 initial states for 2 lines) + every initial state executed on the real "
                                 "PageParser.process_page with stub stages; validated by Pipeline_Trace with Legacy=TRUE (current behaviour)")
 
 
